@@ -11,7 +11,7 @@
    (an edge while the sampler runs restarts the count); `rst c = false`: the code as it was. *)
 From Coq Require Import List ZArith Bool Lia.
 Import ListNotations.
-From V Require Import Base.U32 Gen.InputConsts C11.Model C11.Proofs C11.Machine C11.Gesture.
+From V Require Import Base.U32 Gen.InputConsts C11.Model C11.Proofs C11.Machine C11.Gesture C11.Gesture2.
 Local Open Scope Z_scope.
 
 (* ---- glitches are ignored (repaired code, literal strength) ----
@@ -171,10 +171,9 @@ Print Assumptions C11_nonvacuous.
      - PRESS_x N once (if enabled in A)    otherwise;
    and no local relay action happens in the first and third case (`loc` unchanged).
    `xt t k` is [] when PRESS_xk is not enabled or the input has no channel.
-   The long press is C11_at_hold below.
-   Not covered by a theorem (property partial here): bistable / motion inputs, M <= 1
-   (there the code reports every click on its own at once, pinned by the repo test BistableTurnOnOffAndTogglex1),
-   the configuration button.  The correspondence check and the monitor cover them on generated gestures. *)
+   The long press is C11_at_hold below; the same two statements for ANY monostable input (configuration button
+   included) are C11_at_single_trigger_any / C11_at_hold_any; bistable inputs: C11_at_bistable; highest multiplicity <= 1:
+   C11_at_max1_*; motion sensors: C11_at_motion_*.  (second part of this file) *)
 Theorem C11_at_single_trigger : forall c A M g rl J ms s x cl nw ls si td ta ou,
   is_mono c = true -> cfg_btn c = false -> A <> 0 -> 2 <= M -> CYCLE_US + J < MULTICLICK_US ->
   forallb (fun m => negb (is_trig m)) ms = true ->
@@ -243,3 +242,192 @@ Example C11_at_nonvacuous :
   filter famo (outs (mrun ex_c ms s)) = [OTrig 1440000 1 CAP_PRESS_x2] /\ filter isloc (outs (mrun ex_c ms s)) = [].
 Proof. vm_compute. repeat split; try reflexivity; intros; try discriminate; try congruence. Qed.
 Print Assumptions C11_at_nonvacuous.
+
+
+(* ==================================================================================================================
+   Second part: the configurations the first part left open
+   ================================================================================================================== *)
+
+(* ---- plain mode, all steps: a trigger configuration never moves the relay (and leaves plain mode exactly when it enables
+   something); the motion-sensor start-up timer sets the wired relay to the recognised state ---- *)
+Theorem C11_plain_once_all : forall c m s,
+  cfg_btn c = false -> PlainV (view s) -> halted s = false ->
+  let r := view (mstep c m s) in let v := view s in
+  match m with
+  | MTrig mask => a_relay r = a_relay v /\ gpv r = gpv v /\ a_ton r = false /\ a_act r = Z.land (cap c) mask
+  | _ =>
+    PlainV r /\
+    match abs c m s with
+    | ANotify st_ =>
+        if effV c st_ v then
+          a_last r = st_ /\
+          (arelc v = false -> a_relay r = a_relay v /\ gpv r = gpv v) /\
+          (arelc v = true ->
+            match plain_expect c st_ (a_relay v) with
+            | Some h => a_relay r = h /\ gpv r = (if h =? a_relay v then [] else [OGpio (a_now v + RELAY_D1) h]) ++ gpv v
+            | None => a_relay r = a_relay v /\ gpv r = gpv v
+            end)
+        else a_relay r = a_relay v /\ gpv r = gpv v
+    | AMot =>
+        a_last v = ST_ACTIVE \/ a_last v = ST_INACTIVE ->
+        if arelc v && is_motion c then
+          a_relay r = a_last v /\ gpv r = (if a_last v =? a_relay v then [] else [OGpio (a_now v + RELAY_D1) (a_last v)]) ++ gpv v
+        else a_relay r = a_relay v /\ gpv r = gpv v
+    | _ => a_relay r = a_relay v /\ gpv r = gpv v
+    end
+  end.
+Proof. exact plain_all_thm. Qed.
+Print Assumptions C11_plain_once_all.
+
+(* ---- plain mode of ANY input, the configuration button included (PlainC: active_triggers = 0, relay level 0/1, the button
+   timer - if armed - is the legacy one).  Every micro-step other than a trigger configuration either enters configuration
+   mode (10th toggle / 5 s hold; relay untouched, case over) or keeps plain mode and acts on the relay exactly as above. ---- *)
+Theorem C11_plain_once_cfg : forall c m s,
+  is_trig m = false -> PlainC (view s) -> halted s = false ->
+  let r := view (mstep c m s) in let v := view s in
+  (a_halted r = true /\ a_relay r = a_relay v /\ gpv r = gpv v) \/
+  (a_halted r = false /\ PlainC r /\
+   match abs c m s with
+   | ANotify st_ =>
+       if effV c st_ v then
+         a_last r = st_ /\
+         (arelc v = false -> a_relay r = a_relay v /\ gpv r = gpv v) /\
+         (arelc v = true ->
+           match plain_expect c st_ (a_relay v) with
+           | Some h => a_relay r = h /\ gpv r = (if h =? a_relay v then [] else [OGpio (a_now v + RELAY_D1) h]) ++ gpv v
+           | None => a_relay r = a_relay v /\ gpv r = gpv v
+           end)
+       else a_relay r = a_relay v /\ gpv r = gpv v
+   | AMot => True
+   | _ => a_relay r = a_relay v /\ gpv r = gpv v
+   end).
+Proof. exact plain_cfg_thm. Qed.
+Print Assumptions C11_plain_once_cfg.
+
+(* ---- the scheduler's fuel is not an assumption: an ADV step ends in configuration mode, or with no armed timer due any
+   more (= the double's v_advance), or with FAULT as the newest output; and C11_run_is_a_schedule holds whatever the fuel ---- *)
+Theorem C11_scheduler_complete : forall c s dt,
+  let s' := estep c s (EAdv dt) in
+  halted s' = true \/ pick s' (now s + dt) = None \/ exists l, outs s' = OFault :: l.
+Proof. exact adv_complete. Qed.
+Print Assumptions C11_scheduler_complete.
+
+(* ---- action-trigger mode, any monostable input: also the configuration button, as long as the gesture does not itself
+   enter configuration mode (fewer than CFG_PRESS_COUNT clicks when toggles count, every press shorter than
+   CFG_PRESS_US when the hold counts) ---- *)
+Theorem C11_at_single_trigger_any : forall c A M g rl J ms s x cl nw ls si td ta ou,
+  is_mono c = true -> A <> 0 -> 2 <= M -> CYCLE_US + J < MULTICLICK_US ->
+  forallb (fun m => negb (is_trig m)) ms = true ->
+  view s = mkmv nw ST_INACTIVE 0 M A g ls si false td ta rl false ou ->
+  asilent_ret c (view s) = false ->
+  atrace c ms s = gtrace (x :: cl) -> Z.of_nat (length (x :: cl)) < 99 ->
+  gok c J true (view s) (x :: cl) ->
+  pend s <= J -> late (mrun c ms s) <= J -> now (mrun c ms s) - now s < TWO32 ->
+  (on_toggle_en c = false \/ Z.of_nat (length (x :: cl)) < CFG_PRESS_COUNT) ->
+  (on_hold_en c = false \/ gshort c (view s) (x :: cl)) ->
+  verdict c A M g (Z.of_nat (length (x :: cl))) (filter famo (outs s)) (filter isloc (outs s)) (view (mrun c ms s)).
+Proof. exact at_single_trigger_cfg_thm. Qed.
+Print Assumptions C11_at_single_trigger_any.
+Theorem C11_at_hold_any : forall c A M g rl J ms s iPl iRl nw ls si td ta ou,
+  is_mono c = true -> A <> 0 -> 2 <= M -> 0 <= J -> CYCLE_US + J < MULTICLICK_US ->
+  forallb (fun m => negb (is_trig m)) ms = true ->
+  view s = mkmv nw ST_INACTIVE 0 M A g ls si false td ta rl false ou ->
+  asilent_ret c (view s) = false ->
+  atrace c ms s = ANotify ST_ACTIVE :: iPl ++ ANotify ST_INACTIVE :: iRl -> all_idle iPl -> all_idle iRl ->
+  let v1 := arun c iPl (aact c (ANotify ST_ACTIVE) (view s)) in
+  HOLD_US + CYCLE_US + J <= a_now v1 - now s ->
+  MULTICLICK_US + CYCLE_US + J <= now (mrun c ms s) - a_now v1 ->
+  pend s <= J -> late (mrun c ms s) <= J -> now (mrun c ms s) - now s < TWO32 ->
+  (on_hold_en c = false \/ a_now v1 - now s < CFG_PRESS_US) ->
+  exists t, ZSt A M g (ht c A t ++ filter famo (outs s)) (filter isloc (outs s)) (view (mrun c ms s)).
+Proof. exact at_hold_cfg_thm. Qed.
+Print Assumptions C11_at_hold_any.
+
+(* ---- bistable inputs (TOGGLE_x1..x5), configuration button included: N >= 1 quick flips from rest in either position,
+   then silence (`btrace` / `bok`: consecutive recognised changes less than MULTICLICK_US and more than a timer period
+   + J apart, then MULTICLICK_US + CYCLE_US + J of silence).  At rest again in the last position and (bverdict)
+   TOGGLE_x M once if N >= M; nothing but one local action if N = 1 and the relay is wired; else TOGGLE_x N (if enabled).
+   TURN_ON / TURN_OFF of the individual changes are not click-count triggers and are not counted. ---- *)
+Theorem C11_at_bistable : forall c A M g rl J ms s i fl la0 nw ls si td ta ou,
+  is_bi c = true -> A <> 0 -> 2 <= M -> CYCLE_US + J < MULTICLICK_US -> notrig ms ->
+  view s = mkmv nw la0 0 M A g ls si false td ta rl false ou -> (la0 = ST_ACTIVE \/ la0 = ST_INACTIVE) ->
+  asilent_ret c (view s) = false ->
+  atrace c ms s = btrace (opp la0) (i :: fl) -> Z.of_nat (length (i :: fl)) < 99 ->
+  bok c J (view s) (opp la0) (i :: fl) ->
+  pend s <= J -> late (mrun c ms s) <= J -> now (mrun c ms s) - now s < TWO32 ->
+  (on_toggle_en c = false \/ Z.of_nat (length (i :: fl)) < CFG_PRESS_COUNT) ->
+  bverdict c A M g (Z.of_nat (length (i :: fl))) (lastpos la0 (i :: fl)) (filter famo (outs s)) (filter isloc (outs s))
+           (view (mrun c ms s)).
+Proof. exact at_bistable_cfg_thm. Qed.
+Print Assumptions C11_at_bistable.
+
+(* ---- highest enabled multiplicity <= 1 (max_clicks 0 or 1).  The literal reading "N quick clicks produce at most one
+   trigger" is REFUTED: every click is a gesture of its own and is reported at once (witness: two flips 200 ms apart, only
+   TOGGLE_x1 enabled: two TOGGLE_x1; replay corpus/C11/at_max1_two_flips.txt; the repo test BistableTurnOnOffAndTogglex1
+   pins it).  What holds: ONE click from rest is reported exactly once - one local relay action if the relay is wired,
+   else x1 if enabled (IFin) - within one timer period + J after it was recognised, and the machine is at rest again. ---- *)
+Theorem C11_at_max1_literal_refuted :
+  filter famo (outs (run cfg_bi1 0 max1_evs)) = [OTrig 1040000 1 CAP_TOGGLE_x1; OTrig 840000 1 CAP_TOGGLE_x1] /\
+  maxc (run cfg_bi1 0 max1_evs) = 1 /\ late (run cfg_bi1 0 max1_evs) = 0.
+Proof. exact max1_literal_refuted_thm. Qed.
+Print Assumptions C11_at_max1_literal_refuted.
+Theorem C11_at_max1_bistable : forall c A M g rl J ms s i la0 nw ls si td ta ou,
+  is_bi c = true -> A <> 0 -> M <= 1 -> CYCLE_US + J < MULTICLICK_US -> notrig ms ->
+  view s = mkmv nw la0 0 M A g ls si false td ta rl false ou -> (la0 = ST_ACTIVE \/ la0 = ST_INACTIVE) ->
+  asilent_ret c (view s) = false ->
+  atrace c ms s = ANotify (opp la0) :: i -> all_idle i ->
+  pend s <= J -> late (mrun c ms s) <= J -> CYCLE_US + J < now (mrun c ms s) - now s < TWO32 ->
+  IFin c (opp la0) A M g 1 (filter famo (outs s)) (filter isloc (outs s)) (view (mrun c ms s)).
+Proof. exact at_bistable_max1_thm. Qed.
+Print Assumptions C11_at_max1_bistable.
+Theorem C11_at_max1_mono : forall c A M g rl J ms s iPl iRl nw ls si td ta ou,
+  is_mono c = true -> A <> 0 -> M <= 1 -> CYCLE_US + J < MULTICLICK_US -> notrig ms ->
+  view s = mkmv nw ST_INACTIVE 0 M A g ls si false td ta rl false ou ->
+  asilent_ret c (view s) = false ->
+  atrace c ms s = ANotify ST_ACTIVE :: iPl ++ ANotify ST_INACTIVE :: iRl -> all_idle iPl -> all_idle iRl ->
+  let v1 := arun c iPl (aact c (ANotify ST_ACTIVE) (view s)) in
+  a_now v1 - now s < HOLD_US -> CYCLE_US + J < now (mrun c ms s) - a_now v1 ->
+  pend s <= J -> late (mrun c ms s) <= J -> now (mrun c ms s) - now s < TWO32 ->
+  IFin c ST_INACTIVE A M g 1 (filter famo (outs s)) (filter isloc (outs s)) (view (mrun c ms s)).
+Proof. exact at_mono_max1_thm. Qed.
+Print Assumptions C11_at_max1_mono.
+
+(* ---- motion sensors in action-trigger mode (only TURN_ON / TURN_OFF exist).  One recognised change (any max_clicks,
+   configuration button included, counter k not -1): the view right after it is `mo_after_k`, i.e. (C11_at_motion_effect)
+   no click-count trigger, TURN_ON / TURN_OFF exactly when enabled, the wired relay follows exactly when that trigger is
+   not enabled (one GPIO edge iff the level changes); the button timer never sends anything nor moves the relay; with
+   max_clicks <= 1 the machine is at rest again one timer period + J later with nothing else sent (C11_at_motion). ---- *)
+Theorem C11_at_motion_notify : forall c A M g rl s st_ la k nw ls si tn td ta ou,
+  is_motion c = true -> A <> 0 ->
+  view s = mkmv nw la k M A g ls si tn td ta rl false ou ->
+  (st_ = ST_ACTIVE \/ st_ = ST_INACTIVE) -> la <> st_ -> 0 <= k <= 100 ->
+  (on_toggle_en c = false \/ k + 1 < CFG_PRESS_COUNT) -> asilent_ret c (view s) = false ->
+  abs c MDeb s = ANotify st_ ->
+  view (mstep c MDeb s) = mo_after_k c A M g rl k st_ la nw ou.
+Proof. exact at_motion_notify_thm. Qed.
+Print Assumptions C11_at_motion_notify.
+Theorem C11_at_motion_effect : forall c A M g rl st_ la nw ou,
+  filter famo (a_outs (mo_after c A M g rl st_ la nw ou)) = filter famo ou /\
+  a_relay (mo_after c A M g rl st_ la nw ou) = (if follows A g st_ then st_ else rl) /\
+  filter is_gpio (a_outs (mo_after c A M g rl st_ la nw ou)) =
+    (if follows A g st_ && negb (st_ =? rl) then [OGpio (nw + RELAY_D1) st_] else []) ++ filter is_gpio ou /\
+  (follows A g st_ = true -> trig_out c A nw (cap_of st_) = []).
+Proof. exact mo_after_outs. Qed.
+Print Assumptions C11_at_motion_effect.
+Theorem C11_at_motion_timer : forall c s, is_motion c = true ->
+  relay (mstep c MTim s) = relay s /\ outs (mstep c MTim s) = outs s /\ halted (mstep c MTim s) = halted s /\
+  last (mstep c MTim s) = last s.
+Proof. exact at_motion_timer_thm. Qed.
+Print Assumptions C11_at_motion_timer.
+Theorem C11_at_motion : forall c A M g rl J ms s st_ la l nw ls si td ta ou,
+  is_motion c = true -> A <> 0 -> M <= 1 -> 0 <= J -> CYCLE_US + J < MULTICLICK_US -> notrig ms ->
+  view s = mkmv nw la 0 M A g ls si false td ta rl false ou ->
+  (st_ = ST_ACTIVE \/ st_ = ST_INACTIVE) -> la <> st_ -> asilent_ret c (view s) = false ->
+  atrace c ms s = ANotify st_ :: l -> forallb idle_m l = true ->
+  let v1 := aact c (ANotify st_) (view s) in
+  pend s <= J -> late (mrun c ms s) <= J ->
+  CYCLE_US + J < now (mrun c ms s) - a_now v1 -> now (mrun c ms s) - a_now v1 < TWO32 ->
+  v1 = mo_after c A M g rl st_ la nw (outs s) /\
+  MSt c A M g st_ false (a_now v1) (if follows A g st_ then st_ else rl) (a_outs v1) (view (mrun c ms s)).
+Proof. exact at_motion_thm. Qed.
+Print Assumptions C11_at_motion.
